@@ -62,12 +62,17 @@ Qed.
 Lemma poll_loop_spec e k b h : decl_of p e = DEff k b h ->
   forall f s, Inv0 s -> epoll (getn s e) = true -> edone (getn s e) = false ->
   (ealive (getn s e) = true -> IterPost s e) ->
-  Inv0 (poll_loop p (eff_check p) f e s).
+  let s' := poll_loop p (eff_check p) f e s in
+  Inv0 s' /\
+  (halted s' = true \/
+   (halted s' = halted s /\
+    forall x, epoll (getn s' x) = if Nat.eqb x e then false else epoll (getn s x))).
 Proof.
   intros Hde. assert (He : effb e = true) by (unfold GraphInvariant.effb; rewrite Hde; auto).
   assert (Hel : e < length p) by (apply effb_lt; auto).
-  induction f as [|f IH]; intros s I Hp Hdn HIP; cbn [poll_loop].
+  induction f as [|f IH]; intros s I Hp Hdn HIP; cbv zeta; cbn [poll_loop].
   - (* fuel: the case halts *)
+    split; [|left; reflexivity].
     apply (Inv_views p [] 0 s); auto; try apply I.
     + eapply WF_getn_eq; [| |apply I]; auto.
     + intros i. apply nview_eq_refl.
@@ -106,9 +111,14 @@ Proof.
           intros H1 H2 H3 H4. apply (Lclean_ext p s s1 e); [rewrite E1; reflexivity| |auto].
           intros x v _ _ Hx. rewrite Hs1; auto. }
         destruct (eff_iter_spec p wfp e k b h s1 pure Hde I1 Ha1 Hp1 IP) as (I2 & IP2' & S2).
-        apply IH; auto.
+        set (s2 := eff_iter p (eff_check p) e (updn e (fun n => set_eflag n false) s1)) in *.
+        destruct (IH s2) as (I3 & H3); auto.
         -- rewrite (static_epoll s1 _ e S2). exact Hp1.
         -- destruct S2 as [S2 _]. destruct (S2 e) as (_&_&->&_). rewrite E1. exact Hdn.
+        -- split; auto. destruct H3 as [H3|[H3 H3']]; auto. right.
+           destruct S2 as [S2 S2h]. split; [rewrite H3, S2h; reflexivity|].
+           intros x. rewrite H3'. destruct (Nat.eqb_spec x e); auto.
+           destruct (S2 x) as (_&_&_&->). unfold s1. rewrite (updn_field epoll); auto.
       * (* Pending: the task goes back to sleep with its waker registered *)
         set (s2 := updn e (fun n => set_epoll n false) s1).
         assert (E2 : getn s2 e = set_epoll (set_ereg (getn s e) true) false).
@@ -118,6 +128,8 @@ Proof.
         { intros x. rewrite <- Hc1. apply cur_view; unfold s2; [apply (updn_field sval)|apply (updn_field cache)]; auto. }
         assert (Hs2 : forall x, st (getn s2 x) = st (getn s x)).
         { intros x. rewrite <- Hs1. unfold s2. apply (updn_field st); auto. }
+        split; [|right; split; [reflexivity|]; intros x; fold s2; destruct (Nat.eqb_spec x e) as [->|Hx];
+                 [rewrite E2; reflexivity|unfold s2, s1; rewrite !getn_updn_other; auto]].
         apply Inv0_updn_eff; auto.
         -- intros n. unfold core_same; nsimpl; intuition.
         -- fold s2.
@@ -136,6 +148,8 @@ Proof.
            split; [intros Hf; congruence|].
            intros Hh. apply IP1. unfold EffectsProofs.hasrun. rewrite Hde. exact Hh.
     + (* the effect was disposed: the stream ends *)
+      split; [|right; split; [reflexivity|]; intros x; destruct (Nat.eqb_spec x e) as [->|Hx];
+               [rewrite getn_updn_same by auto; reflexivity|rewrite getn_updn_other; auto]].
       apply Inv0_updn_eff; auto.
       * intros n. unfold core_same; nsimpl; intuition.
       * set (s2 := updn e (fun n => set_epoll (set_edone n true) false) s).
@@ -167,11 +181,25 @@ Proof.
   - intros k [].
 Qed.
 
+(* at operation boundaries polls leave every [epoll] flag as it was, unless the case halts *)
+Definition EpollSame (s s' : state) : Prop :=
+  halted s' = true \/ (halted s' = halted s /\ forall x, epoll (getn s' x) = epoll (getn s x)).
+
+Lemma EpollSame_refl s : EpollSame s s.
+Proof. right. auto. Qed.
+Lemma EpollSame_trans a b c : EpollSame a b -> (halted b = true -> halted c = true) ->
+  EpollSame b c -> EpollSame a c.
+Proof.
+  intros [H1|[H1 H1']] Hh [H2|[H2 H2']]; try (left; auto; fail).
+  right. split; [congruence|]. intros x. rewrite H2', H1'. reflexivity.
+Qed.
+
 Lemma poll_popped e s l1 l2 ev :
   Inv0 s -> ready s = l1 ++ e :: l2 ->
-  Inv0 (poll_task p (eff_check p) e (emit ev (set_ready s (l1 ++ l2)))).
+  let s' := poll_task p (eff_check p) e (emit ev (set_ready s (l1 ++ l2))) in
+  Inv0 s' /\ EpollSame s s'.
 Proof.
-  intros I Hr. set (sp := emit ev (set_ready s (l1 ++ l2))).
+  intros I Hr. cbv zeta. set (sp := emit ev (set_ready s (l1 ++ l2))).
   assert (Hg : forall i, getn sp i = getn s i) by reflexivity.
   assert (Qoth : forall x, x <> e -> queue_ok sp x).
   { intros x Hx. pose proof (inv_queue _ _ _ _ I x) as Q. unfold GraphInvariant.queue_ok, queue_ok_n in *.
@@ -181,13 +209,15 @@ Proof.
     apply in_app_iff in B. apply in_app_iff. destruct B as [B|[B|B]]; auto. congruence. }
   pose proof (inv_queue _ _ _ _ I e) as Qe. unfold GraphInvariant.queue_ok, queue_ok_n in Qe.
   unfold poll_task. destruct (decl_of p e) as [| | |k b h] eqn:Hde;
-    try (apply (Inv0_same_nodes s sp); auto; intros x; destruct (Nat.eq_dec x e) as [->|Hx]; auto;
+    try (split; [|right; split; [reflexivity|intros; reflexivity]];
+         apply (Inv0_same_nodes s sp); auto; intros x; destruct (Nat.eq_dec x e) as [->|Hx]; auto;
          unfold GraphInvariant.queue_ok, queue_ok_n; rewrite Hde; exact Logic.I).
   assert (He : effb e = true) by (unfold GraphInvariant.effb; rewrite Hde; auto).
   assert (Hel : e < length p) by (apply effb_lt; auto).
   assert (Hei : e < nlen s) by (rewrite (wf_len p s (inv_wf _ _ _ _ I)); auto).
   rewrite Hg. destruct (edone (getn s e) || epoll (getn s e)) eqn:Edp.
   - (* finished or not spawned: nothing to poll *)
+    split; [|right; split; [reflexivity|intros; reflexivity]].
     apply (Inv0_same_nodes s sp); auto. intros x. destruct (Nat.eq_dec x e) as [->|Hx]; auto.
     unfold GraphInvariant.queue_ok, queue_ok_n. rewrite Hde, Hg. intros Ha. destruct (Qe Ha) as (Q1 & Q2).
     split; auto. intros Hp. destruct (Q2 Hp) as (A & _). rewrite A, Hp in Edp. discriminate.
@@ -226,7 +256,10 @@ Proof.
         + unfold GraphInvariant.will_run. rewrite Hde, E0. cbn [will_run_n hasrun_n]. nsimpl. auto.
       - unfold GraphInvariant.queue_ok, queue_ok_n. rewrite Hde, E0. nsimpl. intros Ha.
         destruct (Qe Ha) as (Q1 & _). split; auto. discriminate. }
-    apply (poll_loop_spec e k b h Hde POLL_FUEL s0 I0).
+    destruct (poll_loop_spec e k b h Hde POLL_FUEL s0 I0) as (IL & HL).
+    4:{ split; auto. destruct HL as [HL|[HL HL']]; [left; auto|]. right. split; [rewrite HL; reflexivity|].
+        intros x. rewrite HL'. destruct (Nat.eqb_spec x e) as [->|Hx]; [rewrite Hp0; reflexivity|].
+        unfold s0. rewrite getn_updn_other by auto. apply f_equal. apply Hg. }
     + rewrite E0. reflexivity.
     + rewrite E0. nsimpl. exact Hdn.
     + rewrite E0. nsimpl. intros Ha. destruct (Qe Ha) as (Q1 & Q2). destruct (Q2 Hp0) as (_&_&_&Q5).
@@ -245,15 +278,25 @@ Proof.
   - destruct (IH k ltac:(lia)) as (l1 & l2 & E1 & E2). exists (a :: l1), l2. cbn. split; congruence.
 Qed.
 
-Lemma drain_spec : forall f s, Inv0 s -> Inv0 (drain p (eff_check p) f s).
+Lemma drain_spec : forall f s, Inv0 s ->
+  Inv0 (drain p (eff_check p) f s) /\ EpollSame s (drain p (eff_check p) f s).
 Proof.
-  induction f as [|f IH]; intros s I; cbn [drain]; destruct (ready s) as [|e r] eqn:Er.
-  - apply Inv_emit; auto.
-  - apply (Inv_views p [] 0 s); auto; try apply I.
+  induction f as [|f IH]; intros s I; cbn [drain]; destruct (halted s) eqn:Hh;
+    try (split; [exact I|apply EpollSame_refl]); destruct (ready s) as [|e r] eqn:Er.
+  - split; [apply Inv_emit; auto|right; split; [reflexivity|intros; reflexivity]].
+  - split; [|left; reflexivity]. apply (Inv_views p [] 0 s); auto; try apply I.
     + eapply WF_getn_eq; [| |apply I]; auto.
     + intros i. apply nview_eq_refl.
-  - apply Inv_emit; auto.
-  - apply IH. apply (poll_popped e s [] r); auto.
+  - split; [apply Inv_emit; auto|right; split; [reflexivity|intros; reflexivity]].
+  - destruct (poll_popped e s [] r (EvPoll (Some e)) I Er) as (I1 & E1).
+    set (s1 := poll_task p (eff_check p) e (emit (EvPoll (Some e)) (set_ready s ([] ++ r)))) in *.
+    change (set_ready s r) with (set_ready s ([] ++ r)). fold s1.
+    destruct (IH s1 I1) as (I2 & E2). split; auto.
+    destruct (halted s1) eqn:Hh1.
+    + left. destruct f; cbn [drain]; rewrite Hh1; exact Hh1.
+    + destruct E1 as [E1|[E1 E1']]; [congruence|].
+      destruct E2 as [E2|[E2 E2']]; [left; auto|]. right. split; [congruence|].
+      intros x. rewrite E2', E1'. reflexivity.
 Qed.
 
 (* ---------------------------------------------------------------- owner operations *)
@@ -523,6 +566,155 @@ Proof.
   { induction l as [|o t IH]; intros s Hf I; cbn; auto.
     inversion Hf; subst. apply IH; auto. apply step_spec; auto. }
   apply H; auto. apply init_spec.
+Qed.
+
+(* ---------------------------------------------------------------- every task is spawned and at rest *)
+Lemma notify_static j v s :
+  Inv0 s ->
+  let s' := notify_sig p j (updn j (fun n => set_sval n v) s) in
+  halted s' = halted s /\ forall x, epoll (getn s' x) = epoll (getn s x).
+Proof.
+  intros I. cbv zeta. unfold notify_sig.
+  set (s1 := updn j (fun n => set_sval n v) s).
+  set (s2 := add_cause j s1).
+  assert (H2 := fun k => add_cause_getn j s1 k). cbv zeta in H2. fold s2 in H2.
+  assert (H2m := add_cause_misc j s1). fold s2 in H2m.
+  assert (W2 : WF p s2).
+  { apply (WF_same_edges p s s2); [| |apply I].
+    - destruct H2m as (->&_). unfold s1. apply nlen_updn.
+    - intros k. destruct (H2 k) as (_&->&_&_&->&_). unfold s1.
+      rewrite (updn_field srcs), (updn_field subs); auto. }
+  assert (HML := mark_dirty_list p (fun _ => false) (subs (getn s2 j)) (fun _ _ => False) s2 s2 W2 (MarkRel_refl p s2)).
+  cbv beta iota zeta in HML. destruct HML as (MR & _ & _).
+  { intros y k HE; contradiction. }
+  split.
+  - rewrite (mr_halted p _ _ MR). destruct H2m as (_&_&_&->&_). reflexivity.
+  - intros x. destruct (mr_core p _ _ MR x) as (_&_&_&_&_&_&_&_&_&_&_&->).
+    destruct (H2 x) as (_&_&_&_&_&_&_&_&_&_&_&_&_&_&->). unfold s1. apply (updn_field epoll); auto.
+Qed.
+
+Lemma step_epoll s o :
+  Inv0 s -> wf_op o -> EpollSame s (step p (eff_check p) (notify_sig p) s o).
+Proof.
+  intros I Hw. unfold step. destruct (halted s) eqn:Hh; [apply EpollSame_refl|].
+  assert (I1 : Inv0 (emit EvOp s)) by (apply Inv_emit; auto).
+  set (s1 := emit EvOp s) in *.
+  assert (Hs1 : halted s1 = halted s /\ forall x, epoll (getn s1 x) = epoll (getn s x)) by (split; reflexivity).
+  destruct o as [j v|j|n|k| |e|e|e]; cbn [wf_op] in Hw.
+  - rewrite is_sig_sigb, Hw. destruct (notify_static j v s1 I1) as (A & B). right. auto.
+  - rewrite is_sig_sigb, Hw.
+    rewrite <- (updn_id j (fun n => set_sval n (sval (getn s1 j))) s1) at 1.
+    + destruct (notify_static j (sval (getn s1 j)) s1 I1) as (A & B). right. auto.
+    + destruct (getn s1 j); reflexivity.
+  - destruct Hw as [Hn He]. rewrite is_eff_effb, He.
+    destruct (read_top p n s1) as [s2 v] eqn:Er. cbn [fst].
+    destruct (Inv_read p wfp n s1 s2 v I1 Hn He Er) as (_ & P & _). right. split.
+    + rewrite (pr_halted _ _ _ _ _ _ P). reflexivity.
+    + intros x. destruct (pr_eff _ _ _ _ _ _ P x) as (_&_&_&_&_&->). reflexivity.
+  - destruct (ready s1) as [|a r] eqn:Er; [right; split; [reflexivity|intros; reflexivity]|].
+    rewrite <- Er.
+    assert (Hlen : Nat.modulo k (length (ready s1)) < length (ready s1)).
+    { apply Nat.mod_upper_bound. rewrite Er. discriminate. }
+    destruct (remove_nth_split (ready s1) _ Hlen) as (l1 & l2 & E1 & E2).
+    rewrite E2. destruct (poll_popped _ s1 l1 l2 (EvPoll (Some (nth (Nat.modulo k (length (ready s1))) (ready s1) 0))) I1 E1) as (_ & E).
+    destruct E as [E|[Ea Eb]]; [left; auto|right; auto].
+  - destruct (drain_spec RUN_LIMIT s1 I1) as (_ & E). destruct E as [E|[Ea Eb]]; [left; auto|right; auto].
+  - destruct (is_eff p e); [|right; auto]. right. split; [reflexivity|].
+    intros x. rewrite (updn_field epoll) by auto. reflexivity.
+  - destruct (is_eff p e); [|right; auto]. right. split; [reflexivity|].
+    intros x. rewrite (updn_field epoll) by auto. reflexivity.
+  - destruct (is_eff p e); [|right; auto]. right. unfold dispose.
+    assert (Hq : forall a, halted (enqueue e a) = halted a).
+    { intros a. unfold enqueue. destruct (existsb _ _); reflexivity. }
+    destruct (ealive (getn s1 e)); [|auto].
+    destruct (ereg _).
+    + split; [rewrite Hq; reflexivity|]. intros x. rewrite getn_enqueue, !(updn_field epoll) by auto. reflexivity.
+    + split; [reflexivity|]. intros x. rewrite (updn_field epoll) by auto. reflexivity.
+Qed.
+
+Lemma create_epoll i s :
+  Inv0 s ->
+  halted (create p s i) = halted s /\
+  forall x, epoll (getn (create p s i) x) =
+            if Nat.eqb x i && GraphInvariant.effb p i then false else epoll (getn s x).
+Proof.
+  intros I. unfold create, GraphInvariant.effb.
+  destruct (decl_of p i) as [| | |k b h] eqn:Hde;
+    try (split; [reflexivity|intros x; rewrite andb_false_r; reflexivity]).
+  assert (He : effb i = true) by (unfold GraphInvariant.effb; rewrite Hde; auto).
+  assert (Hel : i < length p) by (apply effb_lt; auto).
+  assert (Hei : i < nlen s) by (rewrite (wf_len p s (inv_wf _ _ _ _ I)); auto).
+  assert (Hq : forall a, halted (enqueue i a) = halted a).
+  { intros a. unfold enqueue. destruct (existsb _ _); reflexivity. }
+  assert (Hplain : forall f, (forall n, epoll (f n) = false) ->
+    halted (enqueue i (updn i f s)) = halted s /\
+    forall x, epoll (getn (enqueue i (updn i f s)) x) = if Nat.eqb x i && true then false else epoll (getn s x)).
+  { intros f Hf. split; [rewrite Hq; reflexivity|]. intros x. rewrite getn_enqueue, andb_true_r.
+    destruct (Nat.eqb_spec x i) as [->|Hx]; [rewrite getn_updn_same; auto|rewrite getn_updn_other; auto]. }
+  destruct k as [| |imm]; try (apply Hplain; intros n; reflexivity).
+  set (f0 := fun n => set_epoll (set_edone (set_ereg (set_eflag (set_edirty (set_efirst n false) false) false) false) false) true).
+  set (sa := updn i f0 s).
+  assert (Ea : getn sa i = f0 (getn s i)) by (apply getn_updn_same; auto).
+  assert (IBa : InvBut i [] 0 sa).
+  { apply InvBut_updn; [apply Inv_InvBut; auto|]. intros n. unfold core_same, f0; nsimpl; intuition. }
+  assert (Qa : queue_ok sa i).
+  { unfold GraphInvariant.queue_ok, queue_ok_n. rewrite Hde, Ea. unfold f0. nsimpl. intros _. split; discriminate. }
+  destruct (pure i ERender b h Hde) as (Hokb & _).
+  destruct (eval p (read_any p) true (Some i, true) b (begin_run true i (clear_sources i sa))) as [s2 v] eqn:Ev.
+  destruct (eff_body_spec p wfp true i b sa s2 v IBa Qa He Hokb) as (I2 & P2 & _); auto.
+  { rewrite Ea. unfold f0. nsimpl. reflexivity. }
+  assert (Hei2 : i < nlen s2) by (rewrite (wf_len p s2 (inv_wf _ _ _ _ I2)); auto).
+  split.
+  - rewrite Hq. cbn. rewrite (pr_halted _ _ _ _ _ _ P2). reflexivity.
+  - intros x. rewrite getn_enqueue, andb_true_r. destruct (Nat.eqb_spec x i) as [->|Hx].
+    + rewrite getn_updn_same by (rewrite nlen_emit; auto). reflexivity.
+    + rewrite getn_updn_other by auto. rewrite getn_emit.
+      destruct (pr_eff _ _ _ _ _ _ P2 x) as (_&_&_&_&_&->). unfold sa. rewrite getn_updn_other; auto.
+Qed.
+
+Lemma init_spawned :
+  halted (init p) = false /\ forall e, effb e = true -> epoll (getn (init p) e) = false.
+Proof.
+  unfold init. fold init0.
+  assert (H : forall l s, Inv0 s -> NoDup l ->
+            let s' := fold_left (create p) l s in
+            halted s' = halted s /\
+            forall x, epoll (getn s' x) = if existsb (Nat.eqb x) l && GraphInvariant.effb p x then false else epoll (getn s x)).
+  { induction l as [|i t IH]; intros s I Hnd; cbn [fold_left existsb].
+    - split; auto.
+    - inversion Hnd as [|? ? Hi Ht]; subst.
+      destruct (create_epoll i s I) as (A & B).
+      destruct (IH (create p s i) (create_spec i s I) Ht) as (C & D). cbv zeta in C, D.
+      split; [congruence|]. intros x. rewrite D, B.
+      destruct (Nat.eqb_spec x i) as [->|Hx]; cbn [orb andb].
+      + destruct (GraphInvariant.effb p i); [destruct (existsb _ t); reflexivity|].
+        rewrite !andb_false_r. reflexivity.
+      + reflexivity. }
+  destruct (H (seq 0 (length p)) init0 init0_spec (seq_NoDup _ _)) as (A & B). cbv zeta in A, B.
+  split; [rewrite A; reflexivity|].
+  intros e He. rewrite B, He, andb_true_r.
+  assert (Hin : existsb (Nat.eqb e) (seq 0 (length p)) = true).
+  { apply existsb_exists. exists e. split; [|apply Nat.eqb_refl]. apply in_seq. pose proof (effb_lt p e He). lia. }
+  rewrite Hin. reflexivity.
+Qed.
+
+(* in every reachable state that has not halted, no task is unspawned or in the middle of a poll *)
+Theorem reachable_at_rest : forall ops, wf_ops ops ->
+  halted (run_fixed p ops) = true \/
+  forall e, effb e = true -> epoll (getn (run_fixed p ops) e) = false.
+Proof.
+  intros ops Hw. unfold run_fixed, run_ops.
+  assert (H : forall l s, Forall wf_op l -> Inv0 s ->
+              (halted s = true \/ forall e, effb e = true -> epoll (getn s e) = false) ->
+              let s' := fold_left (step p (eff_check p) (notify_sig p)) l s in
+              halted s' = true \/ forall e, effb e = true -> epoll (getn s' e) = false).
+  { induction l as [|o t IH]; intros s Hf I Hs; cbn [fold_left]; auto.
+    inversion Hf; subst. apply IH; auto; [apply step_spec; auto|].
+    destruct Hs as [Hs|Hs].
+    - left. unfold step. rewrite Hs. exact Hs.
+    - destruct (step_epoll s o I H1) as [E|[Ea Eb]]; [left; auto|].
+      right. intros e He. rewrite Eb. auto. }
+  apply H; auto; [apply init_spec|]. right. apply init_spawned.
 Qed.
 
 (* ---------------------------------------------------------------- consequences *)
